@@ -76,6 +76,7 @@ class Model:
         self.jobs: Dict[str, ET.Element] = {}
         self.messages: Dict[str, ET.Element] = {}
         self.dops: Dict[str, ET.Element] = {}
+        self._memo: Dict[Any, Any] = {}
         for fn in sorted(files):
             if not fn.lower().endswith(".odx-d"):
                 continue
@@ -135,7 +136,10 @@ class Model:
         return {n: i for n, (i, _) in self._inherit(lid, local, lambda nc, nd: nc).items()}
 
     def applicable_services(self, lid: str) -> Dict[str, str]:
-        return {n: i for n, i in self.applicable_comms(lid).items() if i in self.services}
+        k = ("svcs", lid)
+        if k not in self._memo:
+            self._memo[k] = {n: i for n, i in self.applicable_comms(lid).items() if i in self.services}
+        return self._memo[k]
 
     def applicable_dops(self, lid: str) -> Dict[str, str]:
         return {n: i for n, (i, _) in self._inherit(lid, lambda layer: layer.dops, lambda nc, nd: nd).items()}
@@ -180,22 +184,28 @@ class Model:
         return (canon(p), canon(dop) if dop is not None else None)
 
     def message_sig(self, m: ET.Element) -> Any:
-        return (m.tag, tuple(sorted(m.attrib.items())), txt(m, "SHORT-NAME"), tuple(self.param_sig(p) for p in m.findall("PARAMS/PARAM")))
+        """what the comparison is about: the parameters (not the ID / name of the message object that carries them)"""
+        k = ("msg", id(m))
+        if k not in self._memo:
+            self._memo[k] = (m.tag, tuple(self.param_sig(p) for p in m.findall("PARAMS/PARAM")))
+        return self._memo[k]
 
     def service_name(self, sid: str) -> str:
         return txt(self.services[sid], "SHORT-NAME") or ""
 
     def service_prefix(self, sid: str) -> Optional[bytes]:
-        for tag, m in self.service_messages(sid):
-            if tag == "REQUEST-REF":
-                return request_prefix(m)
-        return None
+        k = ("prefix", sid)
+        if k not in self._memo:
+            self._memo[k] = next((request_prefix(m) for tag, m in self.service_messages(sid) if tag == "REQUEST-REF"), None)
+        return self._memo[k]
 
 
 def request_prefix(msg: ET.Element) -> Optional[bytes]:
-    """Constant prefix of a request: the run of leading CODED-CONST parameters, placed per ISO 22901-1 7.3.6
-    (plain big-endian integers only; None = not computable by this model)."""
+    """Constant prefix of a request: the leading run of CODED-CONST parameters is placed per ISO 22901-1 7.3.6 (plain
+    big-endian integers only; None = not computable by this model); the prefix is made of the bytes from the start of
+    the PDU that are COMPLETELY covered by these constants (the reading odxtools documents in codec.py)."""
     out = bytearray()
+    used = bytearray()
     cursor = 0
     for p in msg.findall("PARAMS/PARAM"):
         t = p.get(XSI_TYPE)
@@ -219,11 +229,17 @@ def request_prefix(msg: ET.Element) -> Optional[bytes]:
         k = (bit + bits + 7) // 8
         if len(out) < byte + k:
             out.extend(b"\x00" * (byte + k - len(out)))
+            used.extend(b"\x00" * (byte + k - len(used)))
         mask = ((1 << bits) - 1) << bit
         old = int.from_bytes(out[byte:byte + k], "big")
         out[byte:byte + k] = ((old & ~mask) | (v << bit)).to_bytes(k, "big")
+        um = int.from_bytes(used[byte:byte + k], "big")
+        used[byte:byte + k] = (um | mask).to_bytes(k, "big")
         cursor = byte + k
-    return bytes(out)
+    n = 0
+    while n < len(used) and used[n] == 0xFF:
+        n += 1
+    return bytes(out[:n])
 
 
 def changed_params(old: List[Tuple[str, ET.Element]], new: List[Tuple[str, ET.Element]], mo: Optional["Model"] = None,
@@ -298,10 +314,21 @@ def layer_diff(mn: Model, lid_new: str, mo: Model, lid_old: str) -> Tuple[Dict[s
     for i, n in so.items():
         if i not in sn:
             e["deleted"].append(n)
-    # a name that both layers use for DIFFERENT services (override by short name) is neither clearly a change nor a
-    # deletion plus an addition
-    if {n for i, n in sn.items() if i not in so} & {n for i, n in so.items() if i not in sn}:
-        amb = "one short name denotes different services in the two layers"
+    # OVERRIDE: a layer defines a service of its own under the short name (and constant prefix) of the service the other
+    # layer has -- for the comparison that is the same service, possibly with changed parameters
+    old_by_name = {n: i for i, n in so.items() if i not in sn}
+    for i, n in list(sn.items()):
+        if i in so or n not in old_by_name:
+            continue
+        j = old_by_name[n]
+        e["new"].remove(n)
+        e["deleted"].remove(n)
+        if mn.service_prefix(i) != mo.service_prefix(j):
+            e["prefix_changed"].append(n)  # still the same service: it keeps its short name (must not be called new)
+        a, b = mo.service_messages(j), mn.service_messages(i)
+        if [mo.message_sig(x) for _, x in a] != [mn.message_sig(x) for _, x in b] or [t for t, _ in a] != [t for t, _ in b]:
+            e["changed"].append(n)
+            e["params"][n] = changed_params(a, b, mo, mn)
     return e, amb
 
 
